@@ -44,6 +44,11 @@ def run(ctx):
             j['opts'] = j['opts'] + cmp_
         j['timeout'] = 600 if ctx.thorough else 120
         jobs.append(j)
+    tails = ['(assert (trigger', '"trigger', ') trigger', '(assert |trigger x', '(assert (f x)) ) (trigger']
+    for k, tail in enumerate(tails if ctx.thorough else tails[:3]):
+        text = '(set-logic ALL)\n(declare-const x Int)\n(assert (> x 0))\n(check-sat)\n' + tail
+        jobs.append(dict(text=text, opts=['--strategy', ['ddmin', 'hierarchical', 'hybrid'][k % 3], '-j', str(1 + k % 2)] + fmts[k % 3],
+                         cmd=[e2e.TOKPRED, 'all', 'trigger'] if 'trigger' in e2e.sh_tokens(text) else [e2e.TOKPRED, 'all', '"trigger'], env={}, timeout=120))
     runs = e2e.run_many([{k: v for k, v in j.items() if k != 'cc'} for j in jobs])
     for j, r in zip(jobs, runs):
         w = e2e.writes_of(r)
